@@ -29,8 +29,8 @@ RULE = ('generated meshes (2..6 ROADM sites, any degree, 1..4 spans per directio
         'Span/SI/Roadm, topology). Dedicated cases reproduce the listed known findings.')
 ASSUMPTIONS = ['"well-formed" = what docs/json.rst allows and the loaders accept',
                'Raman fibres are generated below the maximum span length (splitting one is not described)',
-               'fibres with lumped losses are generated below the maximum span length in the main workload (their '
-               'splitting is a listed known finding exercised by dedicated cases)']
+               'a lumped loss that falls exactly between two split spans may be carried as input attenuation of the '
+               'second one']
 REQUIRED_COUNTERS = {'designs_checked': 60, 'amplifiers_checked': 300, 'fibres_checked': 300, 'spans_checked': 200,
                      'split_fibres_checked': 10, 'inserted_amplifiers': 100}
 CASE_TIMEOUT = {'quick': 200, 'thorough': 400}
@@ -241,10 +241,28 @@ def check_design(ctx, ej, tj, equipment, network):
                 break
         ll = e['params'].get('lumped_losses') or []
         if ll:
-            tot = sum(sum(x['loss'] for x in p.params.lumped_losses) for p in parts)
-            if abs(tot - sum(x['loss'] for x in ll)) > 1e-9:
-                ctx.violation('split-lumped', f'{e["uid"]}: lumped losses of the split spans sum to {tot} dB, original '
-                              f'{sum(x["loss"] for x in ll)} dB', mechanism='split-fibre-lumped-losses')
+            # every lumped loss is found once, at its original place: in the part that contains it, or - when it sits
+            # exactly between two parts - as extra input attenuation of the second one (input attenuation may also
+            # hold padding, which the span checks judge)
+            att0 = e['params'].get('att_in') or 0.0
+            ordered = sorted(parts, key=lambda p: int(p.uid.rsplit('_(', 1)[1].split('/')[0]))
+            Lkm = lens[0] * 1e-3
+            found = sorted((k, round(x['position'], 6), x['loss']) for k, p in enumerate(ordered)
+                           for x in p.params.lumped_losses)
+            want, at_input = [], {}
+            for x in ll:
+                k = min(int(float(x['position']) // Lkm + 1e-9), n_parts - 1)
+                rel = float(x['position']) - k * Lkm
+                if rel < 1e-6:
+                    at_input[k] = at_input.get(k, 0.0) + x['loss']
+                else:
+                    want.append((k, round(rel, 6), x['loss']))
+            ctx.count('split_lumped_checks')
+            bad_input = [k for k, v in at_input.items() if ordered[k].params.att_in - att0 < v - 1e-9]
+            if found != sorted(want) or bad_input:
+                ctx.violation('split-lumped', f'{e["uid"]}: lumped losses (part, position km, dB) after the split '
+                              f'{found[:6]}, expected {sorted(want)[:6]} and at the input of parts {at_input}',
+                              mechanism='split-fibre-lumped-losses')
     # ---- reachability and ROADM-level adjacency
     a0 = roadm_adjacency_json(tj)
     a1 = roadm_adjacency_net(network)
